@@ -51,6 +51,7 @@ type scheduler struct {
 	idle     int
 	chanSeq  int
 	delivery []int64 // tags of delivered goroutines, in order (for native replay)
+	activity int     // counts channel / mutex / spawn events (progress detection)
 }
 
 type mutexState struct {
@@ -181,12 +182,9 @@ func (m *machine) spawn(fr *frame, instr *ssa.Go, fn value, args []value) {
 	}
 	g := &goroutine{id: len(m.sched.gs), m: m, resume: make(chan bool), fn: fn, args: args, tag: -1}
 	m.sched.gs = append(m.sched.gs, g)
-	if m.cur == m.sched.main {
-		m.switchTo(g) // runs until it parks
-		m.drain()
-	} else {
-		m.makeRunnable(g)
-	}
+	m.sched.activity++
+	m.switchTo(g) // runs until it parks
+	m.drain()
 }
 
 // ---------- channels ----------
@@ -210,6 +208,7 @@ func (m *machine) dbg(format string, a ...interface{}) {
 }
 
 func (m *machine) chanSend(fr *frame, c *chanV, v value) {
+	m.sched.activity++
 	m.dbg("send on chan %d (cap %d, buf %d, recvq %d)", c.id, c.capacity, len(c.buf), len(c.recvq))
 	if c == nil {
 		m.parkCur("send on nil channel")
@@ -249,6 +248,26 @@ func (m *machine) takeFromSender(c *chanV, g *goroutine) value {
 	return v
 }
 
+// settle lets scheduler loops running in other goroutines (parked in
+// time.Sleep) iterate until none of them makes progress any more.
+func (m *machine) settle() {
+	for round := 0; round < 1000; round++ {
+		before := m.sched.activity
+		any := false
+		for _, g := range m.sched.gs {
+			if !g.done && g.park == "sleep" {
+				any = true
+				m.switchTo(g)
+				m.drain()
+			}
+		}
+		if !any || m.sched.activity == before {
+			return
+		}
+	}
+	panic(unwindOverflow{"scheduler loops in goroutines never settle"})
+}
+
 func (m *machine) chanRecvNow(c *chanV, elem types.Type) (value, bool, bool) {
 	m.dbg("recv on chan %d (buf %d, sendq %d)", c.id, len(c.buf), len(c.sendq))
 	if len(c.buf) > 0 {
@@ -281,14 +300,16 @@ func (m *machine) chanRecv(fr *frame, c *chanV, commaOk bool, elem types.Type) v
 	if !ready {
 		g := m.cur
 		if g == m.sched.main {
-			// blocking receive in the scheduling goroutine: deliver until something arrives
+			// blocking receive in the main goroutine: let other scheduler loops
+			// settle, then deliver running tasks one by one until something arrives
 			for {
-				if !m.deliverOne("blocking receive") {
-					panic(unwindOverflow{"blocking receive with nothing in flight"})
-				}
+				m.settle()
 				v, ok, ready = m.chanRecvNow(c, elem)
 				if ready {
 					break
+				}
+				if !m.deliverOne("blocking receive") {
+					panic(unwindOverflow{"blocking receive with nothing in flight"})
 				}
 			}
 		} else {
@@ -427,7 +448,12 @@ func (m *machine) doSelect(fr *frame, instr *ssa.Select) value {
 // ---------- time, mutex ----------
 
 func iSleep(m *machine, fr *frame, args []value) value {
-	if m.sched == nil || m.cur != m.sched.main {
+	if m.sched == nil {
+		return nil
+	}
+	if m.cur != m.sched.main {
+		// a scheduler loop running in a goroutine: wait to be resumed
+		m.parkCur("sleep")
 		return nil
 	}
 	// the scheduler loop found nothing to launch: harness hook (work conservation)
@@ -470,6 +496,7 @@ func iMutexLock(m *machine, fr *frame, args []value) value {
 	if m.sched == nil {
 		return nil
 	}
+	m.sched.activity++
 	mu := mutexOf(args)
 	st := m.sched.mutexes[mu]
 	if st == nil {
@@ -497,6 +524,7 @@ func iMutexUnlock(m *machine, fr *frame, args []value) value {
 		panic(targetPanic{iface{t: types.Typ[types.String], v: "sync: unlock of unlocked mutex"}})
 	}
 	st.owner = nil
+	m.sched.activity++
 	if len(st.waiters) > 0 {
 		w := st.waiters[0]
 		st.waiters = st.waiters[1:]
